@@ -226,7 +226,7 @@ class Env:
     self.html_d = pg.Dict(a=dict(b=1))
     self.n = 0
     self.timeits = []                 # TimeIt objects this thread is inside of
-    self.exit_calls = 0
+    self.exit_token = None
     self.exit_exc = None
     self.foreign_process_de = False   # another thread uses dynamic_evaluate(per_thread=False)
 
@@ -537,9 +537,10 @@ def _de_gen(rng, env, state):
 
 def _de_make(args, env):
   exit_fn = None
+  env.exit_token = token = [0]       # calls of this block's exit_fn
   if args['exit'] == 'count':
     def exit_fn():
-      env.exit_calls += 1
+      token[0] += 1
   elif args['exit'] == 'raise':
     def exit_fn():
       env.exit_exc = E1('raised by exit_fn')
@@ -1154,22 +1155,35 @@ class ExpectEnv:
     self.fmt_d = like.fmt_d
 
 
-def applicable(obs, env, heavy):
-  if obs.heavy and not heavy:
-    return False
+# Observers costing more than ~0.1 ms: evaluated at the blocks of their own
+# manager and at the blocks drawn for a full snapshot (program start/end too).
+COSTLY = {'typecheck.typed-new', 'partial.ctor-rejected', 'sealed.rebind',
+          'autocall.call', 'ctxov.attribute', 'strfmt.str', 'reprfmt.repr',
+          'codectx.evaluate', 'perm.evaluate', 'de.oneof', 'de.process-scope-effective',
+          'viewopt.to_html'}
+
+
+def applicable(obs, env, full, focus=None):
+  """Is `obs` part of a snapshot taken by `env` around a block of manager `focus`?"""
+  if (obs.heavy or obs.name in COSTLY) and not full:
+    if focus is None or not (obs.mgr == focus or obs.mgr.split('[')[0] == focus):
+      return False
   if obs.scope == 'process' and not env.process_ok:
     return False
+  if obs.mgr.startswith('dynamic_evaluate') and env.foreign_process_de:
+    return False      # another thread legitimately changes the process-wide function
   if obs.solo_only and not env.solo:
     return False
   return True
 
 
-def heal_process_state():
-  """Best-effort reset of process-wide residue after a reported violation."""
+def heal_process_state(de_glob=None):
+  """Best-effort reset of process-wide residue after a reported violation:
+  the process-wide dynamic_evaluate function is set to what the model says."""
   setter = getattr(pg.hyper.base, 'set_dynamic_evaluate_fn', None)
   if setter is not None and _get_de_fn is not None:
     try:
-      setter(None, False)
+      setter(DE_FN.get(de_glob), False)
     except Exception:  # pylint: disable=broad-except
       pass
 
